@@ -43,7 +43,18 @@ def base_scenario(rng, n_markets=1, market_knobs=None, strategies=1, mix=None, s
         st.update(strat_kw or {})
         sc["strategies"].append(st)
         agentgen.add_script(rng, sc, st, mix)
+    _tz(sc)
     return sc
+
+
+def _tz(sc):
+    from .. import rt
+
+    if not sc["markets"]:
+        return  # markets are added by the caller, who calls _tz afterwards
+    tz = rt.tz_for("%s|%d" % (sc["markets"][0]["updates"][0]["pt"], len(sc["markets"][0]["updates"])))
+    if tz:
+        sc["tz"] = tz
 
 
 def sample_view(sc):
